@@ -842,3 +842,10 @@ mod tests {
         println!("Finished bls12-381");
     }
 }
+
+/// Verification hook: all outputs of the crate-private `Combinations` iterator
+/// (only with `--cfg arkworks_rs_poly_commit_verif` or under Kani).
+#[cfg(any(kani, arkworks_rs_poly_commit_verif))]
+pub fn verif_combinations(values: Vec<usize>, len: usize) -> Vec<Vec<usize>> {
+    Combinations::new(values, len).collect()
+}
